@@ -23,7 +23,7 @@ from contracts._common import PathT, path_str
 DEPENDS = []  # (target, why)
 _IMPORT_ERRORS = {}
 for _m in ("contracts.c05_config", "contracts.c16_srp", "contracts.c02_magic_numbers", "contracts.c09_path_predicates",
-           "contracts.c11_containment"):
+           "contracts.c11_containment", "contracts.c15_language"):
     try:
         __import__(_m)
     except BaseException as _e:  # noqa  (reported by the coverage check below, never silently)
@@ -53,6 +53,10 @@ _REPO = os.environ.get("VERIF_REPO", "/repo")
 PREDICATES = [  # consumers of config.ignore contracted under other properties
     "src/linters/srp/linter.py::SRPRule._is_file_ignored", "src/linters/srp/linter.py::SRPRule._should_process_file",
     "src/linters/magic_numbers/linter.py::MagicNumberRule._is_file_ignored", "src/core/linter_utils.py::is_ignored_path",
+    # file-header's own file-level forms and the shared helpers the Rust linters' ignore test goes through
+    "src/linters/file_header/linter.py::FileHeaderRule._has_file_ignore",
+    "src/linters/file_header/linter.py::FileHeaderRule._should_ignore_file",
+    "src/core/linter_utils.py::resolve_file_path", "src/core/linter_utils.py::should_process_file",
 ]
 for _rel, _cls, _fld in config_classes_with_ignore(_REPO):
     DEPENDS.append((f"{_rel}::{_cls}.from_dict", f"hands the section's `{_fld}` list to the rule"))
